@@ -15,9 +15,10 @@
    Whole-algorithm statements [forall s1 s2, alg s1 x = alg s2 x] are proved
    for the dual graph, the load / imbalance functions, Rcb and Rib (given the
    rotated points), HilbertCurve (given the curve indices, exact integer sums,
-   one named float assumption) and MultiJagged at exact arithmetic (up to
-   renaming).  NOT proved: ZCurve beyond "every sort oracle gives runs of the
-   same codes", MultiJagged in binary64 beyond the leaf order, KMeans, and the
+   one named float assumption), MultiJagged at exact arithmetic (up to
+   renaming) and KMeans (binary64, given the rotation matrix, under the exactness
+   flag of the checked run).  NOT proved: ZCurve beyond "every sort oracle gives runs of the
+   same codes", MultiJagged in binary64 beyond the leaf order, and the
    OBB step (rotation / curve indices / quadrants) of Rib, HilbertCurve,
    ZCurve; the theorems named [..._partial] say which part they cover.  What real work stealing does is only
    sampled by the check. *)
@@ -27,6 +28,7 @@ From Coupe Require Properties.C11 Properties.C03 Properties.C09.
 From Coupe Require Model.SfcSched Proofs.SfcSchedProofs.
 From Coupe Require Model.Dual Model.Metrics Model.MultiJagged Proofs.MultiJaggedProofs
   Model.Rcb Proofs.SFOrder Proofs.RcbBalance Model.SfcPart Proofs.SfcProofs Proofs.ZCurveProofs Proofs.ZCheckProofs.
+From Coupe Require Model.KMeans Proofs.KMeansSched Proofs.KMeansOrder Proofs.KMeansF64Sum Proofs.KMeansCollect.
 From Coq Require Import Permutation QArith.QArith Sorting.Sorted Floats.SpecFloat.
 Import C06Collect.
 Close Scope Q_scope.
@@ -308,6 +310,114 @@ Theorem C06_hilbert_sched_indep : SfcSchedProofs.f64_add_exact_on_integers ->
   = SfcSched.hilbert_partition_s ts2 tol maxo order fuel idx ws k p0.
 Proof. exact C09.C09_hilbert_sched_indep. Qed.
 Print Assumptions C06_hilbert_sched_indep.
+
+(* the same WITHOUT the float-addition premise: C09 now proves it from SpecFloat
+   through Flocq (f64 `+` is exact on integers within 2^53: classical-reals
+   axioms).  The statement with the premise above is kept (axiom-free). *)
+Theorem C06_hilbert_sched_indep_proved : forall ws, SfcSched.exact_sums ws ->
+  forall ts1 ts2 tol maxo order fuel idx k p0,
+  SfcSched.hilbert_partition_s ts1 tol maxo order fuel idx ws k p0
+  = SfcSched.hilbert_partition_s ts2 tol maxo order fuel idx ws k p0.
+Proof. exact Coupe.Properties.C09.C09_hilbert_sched_indep_proved. Qed.
+Print Assumptions C06_hilbert_sched_indep_proved.
+
+
+(* ----------------------------------------------------------------- KMeans *)
+
+(* WHOLE KMeans::partition (concrete model Model/KMeans.v: every rayon sum /
+   min_by / max_by / fold_with+reduce_with of k_means.rs and of the geometry.rs
+   helpers goes over the split tree `T key` of its call site, outer iteration,
+   balance iteration and cluster), binary64 with the literals of the source.
+   `reds_chk` is the same run with a flag (`Panic 99`) raised as soon as a
+   reduction is applied to values outside the exactness premises:
+     sums        -- integers whose absolute values add up to at most 2^53
+                    (KMeans.sum_ok_f64; per coordinate for points);
+     comparisons -- max_by / min_by: no NaN and not both 0.0 and -0.0 in the list
+                    (KMeans.cmp_ok_f64); bounding box: neither NaN nor -0.0
+                    (KMeans.val_ok_f64).
+   Theorem: if the checked run under SOME family of trees raises no flag, then
+   ANY TWO families of split trees give the same result (same partition, or the
+   same panic).  The flag is evaluated on every correspondence case (class 2 of
+   the k-means cases = no flag).  Same rotation matrix on both sides (it is an
+   input of the model: the open finding `obb-inexact-sums` is about it); the
+   HashMap order of `erode` is the same on both sides.  Classical-reals axioms
+   (Flocq: f64 `+` is exact on integers below 2^53). *)
+Theorem C06_kmeans_sched_indep : forall lg ex T0 T1 T2 P rot D cfg points weights part,
+  KMeans.kmeans (KMeansCollect.F64g lg ex)
+    (KMeans.reds_chk (KMeansCollect.F64g lg ex) KMeans.sum_ok_f64 KMeans.val_ok_f64 KMeans.cmp_ok_f64 T0 P) rot D cfg points weights part
+    <> Panic 99 ->
+  KMeans.kmeans (KMeansCollect.F64g lg ex) (KMeans.reds_tree (KMeansCollect.F64g lg ex) T1 P) rot D cfg points weights part =
+  KMeans.kmeans (KMeansCollect.F64g lg ex) (KMeans.reds_tree (KMeansCollect.F64g lg ex) T2 P) rot D cfg points weights part.
+Proof. exact KMeansCollect.kmeans_c06_f64. Qed.
+Print Assumptions C06_kmeans_sched_indep.
+
+(* integer-valued inputs with bounded totals -- a STATIC premise: the weights
+   are integers whose absolute values add up to at most 2^53, every point has
+   D coordinates and so does every coordinate column (`vsum_ok`); erode off.
+   Then no sum of the run can be inexact (they are all sums of sub-families of
+   the input), and only the comparisons need the dynamic flag: the checked run
+   here checks max_by / min_by / the box only (sum check = `true`). *)
+Theorem C06_kmeans_sched_indep_int_inputs : forall lg ex T0 T1 T2 P rot D cfg points weights part,
+  KMeans.s_erode cfg = false ->
+  KMeans.sum_ok_f64 weights = true ->
+  KMeans.vsum_ok (KMeansCollect.F64g lg ex) KMeans.sum_ok_f64 D points = true ->
+  KMeans.kmeans (KMeansCollect.F64g lg ex)
+    (KMeans.reds_chk (KMeansCollect.F64g lg ex) (fun _ => true) KMeans.val_ok_f64 KMeans.cmp_ok_f64 T0 P)
+    rot D cfg points weights part <> Panic 99 ->
+  KMeans.kmeans (KMeansCollect.F64g lg ex) (KMeans.reds_tree (KMeansCollect.F64g lg ex) T1 P) rot D cfg points weights part =
+  KMeans.kmeans (KMeansCollect.F64g lg ex) (KMeans.reds_tree (KMeansCollect.F64g lg ex) T2 P) rot D cfg points weights part.
+Proof. exact KMeansCollect.kmeans_c06_f64_int_inputs. Qed.
+Print Assumptions C06_kmeans_sched_indep_int_inputs.
+
+(* the form used by the run: the value of a checked run without flag IS the
+   value of every schedule *)
+Theorem C06_kmeans_checked_run : forall lg ex T1 T2 P rot D cfg points weights part r,
+  KMeans.kmeans (KMeansCollect.F64g lg ex)
+    (KMeans.reds_chk (KMeansCollect.F64g lg ex) KMeans.sum_ok_f64 KMeans.val_ok_f64 KMeans.cmp_ok_f64 T1 P) rot D cfg points weights part = r ->
+  r <> Panic 99 ->
+  KMeans.kmeans (KMeansCollect.F64g lg ex) (KMeans.reds_tree (KMeansCollect.F64g lg ex) T2 P) rot D cfg points weights part = r.
+Proof. exact KMeansCollect.kmeans_c06_f64_chk. Qed.
+Print Assumptions C06_kmeans_checked_run.
+
+(* every arithmetic: the same statement from five premises on the arithmetic
+   (sums of accepted lists and max / min / box of accepted values do not depend
+   on the tree); axiom-free *)
+Theorem C06_kmeans_sched_indep_any_arithmetic : forall A sum_ok val_ok cmp_ok,
+  KMeansSched.sums_exact A sum_ok -> KMeansSched.vsums_exact A sum_ok ->
+  KMeansSched.max_decided A cmp_ok -> KMeansSched.min_decided A cmp_ok -> KMeansSched.bbox_decided A val_ok ->
+  forall T0 T1 T2 P rot D cfg points weights part,
+  KMeans.kmeans A (KMeans.reds_chk A sum_ok val_ok cmp_ok T0 P) rot D cfg points weights part <> Panic 99 ->
+  KMeans.kmeans A (KMeans.reds_tree A T1 P) rot D cfg points weights part =
+  KMeans.kmeans A (KMeans.reds_tree A T2 P) rot D cfg points weights part.
+Proof. exact KMeansSched.kmeans_sched_indep. Qed.
+Print Assumptions C06_kmeans_sched_indep_any_arithmetic.
+
+(* the binary64 instances of the premises *)
+Theorem C06_kmeans_f64_sums_exact : forall lg ex,
+  KMeansSched.sums_exact (KMeansCollect.F64g lg ex) KMeans.sum_ok_f64 /\
+  KMeansSched.vsums_exact (KMeansCollect.F64g lg ex) KMeans.sum_ok_f64.
+Proof. exact (fun lg ex => conj (KMeansF64Sum.sums_exact_f64 lg ex _ _ _ _) (KMeansF64Sum.vsums_exact_f64 lg ex _ _ _ _)). Qed.
+Print Assumptions C06_kmeans_f64_sums_exact.
+
+Theorem C06_kmeans_f64_comparisons_decided : forall lg ex,
+  KMeansSched.max_decided (KMeansCollect.F64g lg ex) KMeans.cmp_ok_f64 /\
+  KMeansSched.min_decided (KMeansCollect.F64g lg ex) KMeans.cmp_ok_f64.
+Proof. exact (fun lg ex => conj (KMeansOrder.max_decided_f64 lg ex _ _ _ _) (KMeansOrder.min_decided_f64 lg ex _ _ _ _)). Qed.
+Print Assumptions C06_kmeans_f64_comparisons_decided.
+
+(* non-vacuity: the doc example of k_means.rs raises no flag; a split schedule
+   and the sequential one give the partition the documentation promises *)
+Example C06_kmeans_nonvacuous :
+  KMeans.kmeans KMeansCollect.Fw (KMeans.reds_tree KMeansCollect.Fw KMeans.T_seq KMeans.P_id) (Some KMeansCollect.ex_id) 2
+      KMeansCollect.ex_cfg KMeansCollect.ex_pts KMeansCollect.ex_ws [0;2;2;2;2;2;2;2;1]%N
+    = Ok [0;0;0;2;2;2;1;1;1]%N
+  /\ KMeans.kmeans KMeansCollect.Fw (KMeans.reds_tree KMeansCollect.Fw KMeansCollect.ex_tree KMeans.P_id) (Some KMeansCollect.ex_id) 2
+      KMeansCollect.ex_cfg KMeansCollect.ex_pts KMeansCollect.ex_ws [0;2;2;2;2;2;2;2;1]%N
+    = Ok [0;0;0;2;2;2;1;1;1]%N
+  /\ KMeans.kmeans KMeansCollect.Fw (KMeans.reds_chk KMeansCollect.Fw KMeans.sum_ok_f64 KMeans.val_ok_f64 KMeans.cmp_ok_f64 KMeans.T_seq KMeans.P_id)
+      (Some KMeansCollect.ex_id) 2 KMeansCollect.ex_cfg KMeansCollect.ex_pts KMeansCollect.ex_ws [0;2;2;2;2;2;2;2;1]%N
+    = Ok [0;0;0;2;2;2;1;1;1]%N.
+Proof. exact KMeansCollect.kmeans_example. Qed.
 
 (* non-vacuity of the collected statements: two different split trees of the
    Rcb fold on a slice with a tie on the right (two points at coordinate 2):
